@@ -6,4 +6,4 @@ M=/tmp/mrepo_$$
 mkdir -p $M && rsync -a --exclude target --exclude .git /repo/ $M/ && (cd $M && patch -p1 -s < $P) || { echo "patch failed"; rm -rf $M; exit 3; }
 cd /verif
 for c in "$@"; do VERIF_REPO=$M ./check $c 2>&1 | grep -E "VIOLATION|UNDECIDED|tier=|KNOWN" | sed 's/replay=[^ ]*//' | cut -c1-220; done
-rm -rf $M /verif/build/expand_* /verif/build/alt_*
+rm -rf $M /verif/build/alt_$(python3 -c "import hashlib,sys;print(hashlib.sha1(sys.argv[1].encode()).hexdigest()[:8])" $M)
